@@ -21,7 +21,7 @@ import numpy as np
 import sympy as sp
 
 from ..core import norm, calls_in, kwarg, AnalysisError
-from ..symx import SymEval, Path, SymObj, symarray, is_zero, is_arr, equal, Opaque, WouldRaise, module_aliases, arr
+from ..symx import SymEval, Path, SymObj, PyStub, symarray, is_zero, is_arr, equal, Opaque, WouldRaise, module_aliases, arr
 from .. import effects
 
 SYS = 'atomman/core/System.py'
@@ -147,37 +147,76 @@ def _le0(rel, e):
 
 
 def box_set(ctx):
+    """System.box_set judged by its effect on a model system (the real System methods over a model cell and a model atom table)"""
     fn = ctx.fn(SYS, 'System.box_set')
+    cls = ctx.fn(SYS, 'System')
     loc = SYS + '::System.box_set'
     aliases = module_aliases(ctx.mod(SYS))
-    for scale in (True, False):
-        rec = Rec()
-        S = sp.Symbol('SPOS')
+    V, W = symarray('v', (3, 3), real=True), symarray('w', (3, 3), real=True)
+    o, o2 = symarray('o', (3,), real=True), symarray('p', (3,), real=True)
+    P = symarray('x', (2, 3), real=True)
+    inv = lambda M: np.array(sp.Matrix(M.tolist()).inv().tolist(), dtype=object)
 
-        def atoms_prop(key=None, value=None, scale=False, **k):
-            if value is None:
-                rec.calls.append(('get', key, scale))
-                return S
-            rec.calls.append(('set', key, value, scale))
+    def run(scale_arg):
+        calls = []
 
-        def bset(**kw):
-            rec.calls.append(('box.set', dict(kw)))
-        me = SymObj(None, {'atoms_prop': atoms_prop, 'box': SymObj(None, {'set': bset}, 'box')}, 'self')
+        class BoxM(PyStub):
+            def __init__(self):
+                self.v, self.o = V, o
+
+            @property
+            def vects(self):
+                return self.v.copy()
+
+            @property
+            def origin(self):
+                return self.o.copy()
+
+            def set(self, **kw):
+                calls.append(dict(kw))
+                self.v, self.o = W, o2
+
+            def position_cartesian_to_relative(self, x):
+                return (np.asarray(x, dtype=object) - self.o).dot(inv(self.v))
+
+            def position_relative_to_cartesian(self, r):
+                return np.asarray(r, dtype=object).dot(self.v) + self.o
+
+        class AtomsM(PyStub):
+            def __init__(self):
+                self.view = {'pos': P.copy()}
+
+            @property
+            def pos(self):
+                return self.view['pos']
+
+            def prop(self, key=None, index=None, value=None, a_id=None):
+                if value is None:
+                    return self.view[key].copy()
+                self.view[key] = np.asarray(value, dtype=object)
+        bx, at = BoxM(), AtomsM()
+        me = SymObj(cls, {'_System__box': bx, '_System__atoms': at}, 'self')
         ev = SymEval(aliases)
-        env = {'self': me, 'kwargs': {'scale': scale, 'a': sp.Symbol('A')}, 'isinstance': lambda a, b: isinstance(a, bool), 'bool': bool}
-        paths = ev.run_fn(fn, env=env)
-        live = [p for p in paths if p.done == 'return']
-        ctx.need(len(live) == 1, 'box_set does not reduce to one path')
-        kinds = [c[0] for c in rec.calls]
-        if scale:
-            ok = kinds == ['get', 'box.set', 'set'] and rec.calls[0][1:] == ('pos', True) and rec.calls[2][1] == 'pos' and rec.calls[2][2] == S and rec.calls[2][3] is True \
-                and rec.calls[1][1] == {'a': sp.Symbol('A')}
-            ctx.ob('BOX-SET', loc, 'scale=True: read scaled positions, set the cell (scale not forwarded), write the same scaled positions back — in that order', ok, str(kinds), node=fn)
-        else:
-            ok = kinds == ['box.set'] and rec.calls[0][1] == {'a': sp.Symbol('A')}
-            ctx.ob('BOX-SET', loc, 'scale=False: only the cell changes; absolute positions are untouched', ok, str(kinds), node=fn)
-    t = [s for s in fn.body if isinstance(s, ast.If) and 'isinstance(scale, bool)' in norm(s.test)]
-    ctx.ob('BOX-SET', loc, 'a non-boolean scale is refused', len(t) == 1 and any(isinstance(x, ast.Raise) for x in t[0].body), node=fn)
+        kw = {'a': sp.Symbol('A')}
+        if scale_arg != 'default':
+            kw['scale'] = scale_arg
+        try:
+            paths = ev.run_fn(fn, [me], kw)
+        except WouldRaise:
+            return 'raise', calls, at, bx
+        except Opaque as e:
+            raise AnalysisError('System.box_set(scale=%r): %s' % (scale_arg, e))
+        return ('ok' if len([q for q in paths if q.done == 'return']) == 1 else 'raise'), calls, at, bx
+    st, calls, at, bx = run(True)
+    want = (P - o).dot(inv(V)).dot(W) + o2
+    ok = st == 'ok' and calls == [{'a': sp.Symbol('A')}] and equal(np.asarray(at.view['pos'], dtype=object), want)
+    ctx.ob('BOX-SET', loc, 'scale=True: the cell is set once (scale not forwarded) and every atom keeps its box-relative position: new position = ((x - old origin)·old cell⁻¹)·new cell + new origin', bool(ok), str(calls), node=fn)
+    for sc in (False, 'default'):
+        st, calls, at, bx = run(sc)
+        ok = st == 'ok' and calls == [{'a': sp.Symbol('A')}] and equal(np.asarray(at.view['pos'], dtype=object), P, deep=False)
+        ctx.ob('BOX-SET', loc, 'scale=%s: only the cell changes; absolute positions are untouched' % ('False' if sc is False else 'not given'), bool(ok), str(calls), node=fn, key='noscale %s' % sc)
+    verd = [(v, run(v)[0], len(run(v)[1])) for v in (1, 'yes', None)]
+    ctx.ob('BOX-SET', loc, 'a non-boolean scale is refused before anything is changed', all(x[1] == 'raise' and x[2] == 0 for x in verd), str(verd), node=fn)
 
 
 def normalize(ctx):
